@@ -378,6 +378,9 @@ PROPS['C10']['streams']['thorough'].append(('taintops', ['-n', 60000]))
 PROPS['C10']['streams']['search'].append(('taintops', ['-n', 10000]))
 PROPS['C10']['aspects'] = PROPS['C10']['aspects'] + ['journal', 'ok']
 PROPS['C18']['aspects'] = PROPS['C18']['aspects'] + ['hist:resize']
+PROPS['C17']['streams']['quick'].append(('hist', ['-n', 32, '-scans', 6, '-focus', 'fleet']))
+PROPS['C17']['streams']['thorough'].append(('hist', ['-n', 240, '-scans', 8, '-focus', 'fleet']))
+PROPS['C17']['streams']['search'].append(('hist', ['-n', 40, '-scans', 8, '-focus', 'fleet']))
 PROPS['C18']['streams']['quick'].append(('hist', ['-n', 250, '-scans', 10, '-focus', 'up']))
 PROPS['C18']['streams']['thorough'].append(('hist', ['-n', 8000, '-scans', 12, '-focus', 'up']))
 PROPS['C18']['streams']['search'].append(('hist', ['-n', 1000, '-scans', 12, '-focus', 'up']))
